@@ -1,5 +1,5 @@
 //! C12 — predicates vs exact sign (K1).
-use crate::common::{hxs, Out, Rng};
+use crate::common::{catch, hxs, Out, Rng};
 use crate::gens;
 use crate::Cfg;
 use delaunay::geometry::kernel::{FastKernel, Kernel, RobustKernel};
@@ -95,8 +95,49 @@ fn tuples_exhaustive(d: usize, pts: &[Vec<f64>], fam: &str, limit: usize, rng: &
     }
 }
 
+
+/// K1 on the tolerance formula itself: `adaptive_tolerance(matrix, base)` against the exact
+/// `base + 1e-12 * max row sum` (constant-one last column excluded) computed in Lean
+fn tol_case<const K: usize>(id: &str, rows: &[Vec<f64>], base: f64, out: &mut Out) {
+    use delaunay::geometry::matrix::{adaptive_tolerance, Matrix};
+    let mut m = Matrix::<K>::zero();
+    for i in 0..K { for j in 0..K { let _ = m.set(i, j, rows[i][j]); } }
+    let t = catch(|| adaptive_tolerance(&m, base));
+    out.case(id, "tol", &format!("k={K}"));
+    for r in rows { out.line(&format!("mr {}", hxs(r))); }
+    out.line(&format!("base {}", crate::common::hx(base)));
+    match t { Ok(v) => out.obs("tol", &crate::common::hx(v)), Err(m) => out.obs("tol", &format!("panic:{m}")) }
+    out.end();
+}
+
+fn tol_cases(rng: &mut Rng, out: &mut Out, n: usize) {
+    for i in 0..n {
+        let k = 2 + (i % 6);
+        let fam = rng.below(5);
+        let mut rows: Vec<Vec<f64>> = Vec::new();
+        let big_row = rng.below(k as u64) as usize;
+        for r in 0..k {
+            let mut row: Vec<f64> = (0..k).map(|_| rng.range(-9, 9) as f64 * [1.0, 0.5, 0.125][rng.below(3) as usize]).collect();
+            // one row dominates the norm (any row, including the last: the query-point row)
+            if r == big_row || (fam == 3 && r == k - 1) { for x in row.iter_mut() { *x *= [64.0, 4096.0, 1048576.0][rng.below(3) as usize]; } }
+            match fam {
+                0 | 3 => row[k - 1] = 1.0,                         // constant-one last column
+                1 => row[k - 1] = if r == 0 { 1.0 + 4.0 * f64::EPSILON } else { 1.0 },   // almost
+                2 => row[k - 1] = 1.0 + f64::EPSILON * (r % 2) as f64,                   // within EPSILON
+                _ => {}
+            }
+            rows.push(row);
+        }
+        let base = [1e-15, 1e-12, 0.0][rng.below(3) as usize];
+        let id = format!("t{i}");
+        match k { 2 => tol_case::<2>(&id, &rows, base, out), 3 => tol_case::<3>(&id, &rows, base, out), 4 => tol_case::<4>(&id, &rows, base, out),
+                  5 => tol_case::<5>(&id, &rows, base, out), 6 => tol_case::<6>(&id, &rows, base, out), _ => tol_case::<7>(&id, &rows, base, out) }
+    }
+}
+
 pub fn run(cfg: &Cfg, rng: &mut Rng, out: &mut Out) {
     let thorough = cfg.tier == "thorough";
+    tol_cases(&mut rng.fork(), out, if thorough { 3000 } else { 600 });
     let mut cnt = 0usize;
     // 1. exhaustive-ish tiny grids, D=2 ({0,1,2}^2: all 84 triples x 9 queries), D=3 ({0,1}^3 ∪ extras)
     let g2 = gens::to_f(&gens::full_grid(2, 3), 1.0, 0.0);
